@@ -45,7 +45,8 @@ def gen_case(rng, tier, index):
     hist = dsgen.gen_history(
         rng, n_sessions=rng.randrange(1, 4),
         formats=("fb", "fb", "npz", "npz", "tfrec"),
-        kinds=("root", "root", "sub"), meta_modes=("none",), max_payload=2,
+        kinds=("root", "root", "sub"),
+        meta_modes=("none", "none", "some", "runs"), max_payload=2,
         bad_rate=rng.choice([0.15, 0.3, 0.3]))
     st = hist["structure"]
     # sometimes add a declaration the format only half supports
@@ -104,6 +105,14 @@ def run_case(case):
 
     def after(hr, k, stats, probes):
         ses = hist["sessions"][k]
+        if hr.rejected_good and not decls:
+            # every declaration is supported, so a *valid* write must not fail
+            ident, exc = hr.rejected_good[0]
+            raise Violation(
+                "C18", "valid_write_fails_after_a_rejected_one",
+                f"{st['fmt']}: the valid write of example {ident} raised "
+                f"{exc} (earlier rejected writes: {len(hr.rejected)}, kind "
+                f"{case.get('bad_kind')})", key=dict(base_key))
         for w in ses.get("writes", []):
             if w.get("bad"):
                 probes["bad_" + w["bad"]] += 1
